@@ -14,6 +14,16 @@ TRANSFORMING = {"filter", "filter_out", "slice", "slice_off", "head", "tail", "d
                 "unselect", "rename", "modify", "rbind", "cbind", "update", "left", "inner", "semi", "anti", "full", "deepcopy"}
 
 
+def safe_nrow(d):
+    """Row count read from the first column, without the library's own dimension check."""
+    for v in dict.values(d):
+        try:
+            return len(v)
+        except TypeError:
+            return 1
+    return 0
+
+
 class Session:
     def __init__(self, pal, init):
         import dataiter as di
@@ -104,7 +114,7 @@ class Session:
         elif op == "rename":
             new = d.rename(**{to: fm for to, fm in a["pairs"]})
         elif op == "modify":
-            new = d.modify(**{a["name"]: value(a["col"], d.nrow)})
+            new = d.modify(**{a["name"]: value(a["col"], safe_nrow(d))})
         elif op in ("rbind", "cbind", "update"):
             new = getattr(d, op)(o)
         elif op in ("left", "inner", "semi", "anti", "full"):
@@ -116,7 +126,7 @@ class Session:
         else:
             new = None
             if op == "setitem":
-                n = d.nrow if d else len(e["col"])
+                n = safe_nrow(d) if d else len(e["col"])
                 v = value(e["col"], n) if (len(e["col"]) in (1, n) or not d) else P.concrete(e["col"])
                 if e.get("via") == "attr":
                     setattr(d, e["name"], v)
@@ -162,7 +172,7 @@ def random_event(rng, s, pal):
     x = rng.randint(1, nf)
     d = s.frames[x - 1]
     cols = list(dict.keys(d))
-    n = d.nrow
+    n = safe_nrow(d)
     op = rng.choice(["filter", "filter_out", "slice", "slice_off", "head", "tail", "drop_na", "unique", "sort", "select",
                      "unselect", "rename", "modify", "rbind", "cbind", "update", "left", "inner", "semi", "anti", "full",
                      "deepcopy", "copy", "copy", "setitem", "setitem", "setitem", "setcol", "setcol", "delitem", "delattr", "pop",
